@@ -154,7 +154,7 @@ def macro_case(draw, ctx):
     nobj = draw(st.integers(0, 3))
     sigs = []  # (name, kind, nparams, variadic)
     for i in range(nfn):
-        sigs.append(('F%d' % i, 'fn', draw(st.integers(0, 3)), draw(st.integers(0, 5)) == 0))
+        sigs.append(('F%d' % i, 'fn', draw(st.integers(0, 3)), draw(st.integers(0, 2)) == 0))
     for i in range(nobj):
         sigs.append(('O%d' % i, 'obj', 0, False))
     order = draw(st.permutations(list(range(len(sigs)))))
@@ -253,7 +253,11 @@ def macro_case(draw, ctx):
                 body.append(operand(True) + ' ## ' + operand(False))
             elif c == 7 and var:
                 feats.add('va_args')
-                body.append('__VA_ARGS__')
+                if kind == 'fn' and draw(st.integers(0, 1)) == 0:
+                    feats.add('stringify_va_args')
+                    body.append('#__VA_ARGS__')
+                else:
+                    body.append('__VA_ARGS__')
             elif c == 8:
                 feats.add('self_reference')
                 body.append(call(nm, 0, done) if kind == 'fn' else nm)
